@@ -25,11 +25,11 @@ LEVEL = "model_checking"
 WORKERS = 4
 TIERS = {
     #            round: MaxDim, Rich    fault: MaxFaults   dist: MaxFaults   mutations/format   recorded events
-    "quick":    dict(maxdim=2, rich=False, faults=1, dist_faults=1, mut=100, rec=600),
-    "thorough": dict(maxdim=3, rich=True, faults=2, dist_faults=1, mut=1000, rec=4000),
+    "quick":    dict(maxdim=2, rich=False, faults=1, dist_faults=1, mut=100, rec=600, wide='{"64K", "1M"}'),
+    "thorough": dict(maxdim=3, rich=True, faults=2, dist_faults=1, mut=1000, rec=4000, wide='{"64K", "1M", "4M"}'),
 }
 FAULT_NAMES = {"DropField", "WrongType", "LenMismatch", "NegDim", "DupIndex", "IndexOutOfRange", "LengthTooSmall",
-               "Truncate", "EmptyFile", "BlankLine", "DropLine", "DropToken", "ExtraToken", "NonNumeric"}
+               "Truncate", "EmptyFile", "BlankLine", "EntryRange", "DropLine", "DropToken", "ExtraToken", "NonNumeric"}
 CFG_FAULTS = {"DropField", "WrongType", "UnknownName", "ParamLen", "ParamElemType", "ParamIndexRange", "ChildCount", "Truncate"}
 ALL_TYPES = {"Float64", "Float32", "Int", "Int8", "Int16", "Int32", "Int64", "Real64", "Real32",
              "ConstFloat64", "ConstFloat32", "ConstInt", "ConstInt8", "ConstInt16", "ConstInt32", "ConstInt64"}
@@ -57,6 +57,13 @@ def case_stats(path, stats):
             continue
         stats["kinds"][(o["k"], o["cls"], o["st"], c["fmt"], view_word(o))] += 1
         stats["layouts"][c.get("layout", "canonical")] += 1
+        if "hist" in o:
+            stats["history"][(o["k"], o["hist"]["how"])] += 1
+        if "wide" in o:
+            stats["wide"][(o["k"], o["wide"])] += 1
+        for f in c["faults"]:
+            if f["f"] == "EntryRange":
+                stats["range"][(c["fmt"], f["val"], f["notation"])] += 1
         for f in c["faults"]:
             stats["faults"][f["f"]] += 1
         stats["types"].update(c["types"])
@@ -173,12 +180,14 @@ def run(ctx):
     ctx.sany("SerializationTrace")
     stats = dict(kinds=collections.Counter(), faults=collections.Counter(), cfg_faults=collections.Counter(),
                  types=set(), atoms=collections.Counter(), model=collections.Counter(), dist_names=set(),
-                 layouts=collections.Counter(), hmm_variants=collections.Counter(), receivers=collections.Counter())
+                 layouts=collections.Counter(), hmm_variants=collections.Counter(), receivers=collections.Counter(),
+                 history=collections.Counter(), wide=collections.Counter(), range=collections.Counter())
     # 1. the model: contract invariants + case generation
     files = {}
     ncases = {}
     for tag, cfg, consts in [
-        ("round", "Serialization_round.cfg", {"MaxDim": str(t["maxdim"]), "Rich": "TRUE" if t["rich"] else "FALSE"}),
+        ("round", "Serialization_round.cfg", {"MaxDim": str(t["maxdim"]), "Rich": "TRUE" if t["rich"] else "FALSE",
+                                              "WideClasses": t["wide"]}),
         ("fault", "Serialization_fault.cfg", {"MaxFaults": str(t["faults"])}),
         ("dist", "Serialization_dist.cfg", {"MaxFaults": str(t["dist_faults"])}),
     ]:
@@ -212,6 +221,18 @@ def run(ctx):
         for pre in pres:
             if stats["receivers"][(kind, pre)] == 0:
                 raise vlib.Infra("vacuity: receiver pre-state %s/%s never generated" % (kind, pre))
+    for kind in ("vector", "matrix"):
+        for how in ("overwrite", "touch", "cancel", "reset"):
+            if stats["history"][(kind, how)] == 0:
+                raise vlib.Infra("vacuity: no sparse %s with a stored zero created by %s" % (kind, how))
+        for w in json.loads("[" + t["wide"].strip("{}") + "]"):
+            if stats["wide"][(kind, w)] == 0:
+                raise vlib.Infra("vacuity: no long-line %s case of class %s" % (kind, w))
+    for fm in ("json", "table"):
+        for val in ("max", "min", "above", "below"):
+            for nt in ("dec", "float", "exp"):
+                if stats["range"][(fm, val, nt)] == 0:
+                    raise vlib.Infra("vacuity: no %s entry %s/%s at the bounds of the integer types" % (fm, val, nt))
     for lay in ("NoFinalNewline", "CRLF", "TrailingBlanks"):
         if stats["layouts"][lay] == 0:
             raise vlib.Infra("vacuity: table layout %s never generated" % lay)
@@ -311,6 +332,9 @@ def run(ctx):
                                       "receiver_pre_states": {"%s/%s" % k: v for k, v in sorted(stats["receivers"].items())},
                                       "hmm_variants": dict(stats["hmm_variants"])}
     ctx.extra["layout_variants_rejected_with_error"] = counts["layout_rejected"]
+    ctx.extra["bound_entries_of_integer_types"] = counts["range_entries"]
+    ctx.extra["long_line_round_trips"] = {k: v for k, v in counts.items() if k.startswith("wide_")}
+    ctx.extra["sparse_history_cases"] = {"%s/%s" % k: v for k, v in sorted(stats["history"].items())}
     ctx.extra["element_types"] = sorted(stats["types"])
     ctx.extra["recorded_events"] = nev
     ctx.extra["bounds"] = dict(t, atoms=10, scalar_N="0..2", vector_n="0..%d (+slices of 1..%d)" % (t["maxdim"] + 1, t["maxdim"] + 2),
